@@ -104,7 +104,7 @@ def prune(keep):
         if p != keep and os.path.isdir(p) and d != "scratch":
             # keep directories touched in the last 30 minutes (another check may be using them)
             try:
-                if time.time() - os.path.getmtime(p) > 1800:
+                if time.time() - os.path.getmtime(p) > 600:
                     shutil.rmtree(p, ignore_errors=True)
             except OSError:
                 pass
